@@ -1827,7 +1827,10 @@ impl<T: PPGEvaluatorStrategy> PPGEvaluator<T> {
                                     "No history for {}, but found {} to use instead",
                                     upstream_id, x
                                 );
-                                history.get(&x).map(Cow::from)
+                                // what this job consumed from the upstream under its old name
+                                history
+                                    .get(&format!("{}!!!{}", x, downstream_id))
+                                    .map(Cow::from)
                             }
                             None => None,
                         }
